@@ -339,7 +339,9 @@ func monC15(c *Case, tr *Trace) []Violation {
 		add("message_integrity_under_concurrency", "%s", v.Details)
 	}
 	for _, o := range tr.Ops {
-		if o.Pending() && tr.Aborted == "" {
+		// (an operation that was merely still running when the workload was declared over, and returned
+		// during the teardown, is marked PendingAtEnd but has its End: that is not a hang)
+		if o.End < 0 && tr.Aborted == "" {
 			add("operation_never_returned", "%s %s#%d never returned although every tunnel was closed", o.Actor, o.Kind, o.Idx)
 		}
 	}
